@@ -32,7 +32,7 @@ use simcore::simio::{Corrupt, CrashMode, IoErr, ReadStep, SimDisk, SimReader, Wr
 
 const PROPERTY: &str = "C10";
 const SC_SER: u64 = 1001;
-const HANG_LIMIT: Duration = Duration::from_secs(60);
+const HANG_LIMIT: Duration = Duration::from_secs(120);
 
 #[derive(Serialize, Deserialize, Clone, Debug)]
 enum After {
